@@ -29,6 +29,28 @@ impl Observer<Val, i64> for FProbe {
   }
 }
 
+struct TProbe {
+  id: usize,
+  log: Log,
+}
+
+impl Observer<Val, i64> for TProbe {
+  fn next(&mut self, value: Val) {
+    let mut s = String::new();
+    Ev::Next(value).show(&mut s);
+    self.log.lock().unwrap().push(format!("(d {} {})", self.id, s));
+  }
+  fn error(self, err: i64) {
+    self.log.lock().unwrap().push(format!("(d {} (e {err}))", self.id));
+  }
+  fn complete(self) {
+    self.log.lock().unwrap().push(format!("(d {} c)", self.id));
+  }
+  fn is_finished(&self) -> bool {
+    false
+  }
+}
+
 fn show(log: &Log) -> String {
   log.lock().unwrap().join(" ")
 }
@@ -108,6 +130,35 @@ macro_rules! finalize_runner {
             _ => emit(&subject, &Ev::parse(st)),
           }
           log.lock().unwrap().push("|".to_string());
+        }
+        show(&log)
+      }
+
+      /// Two subscriptions made from clones of ONE finalize observable over a subject (each has its own
+      /// callback slot): (d I EV) = subscriber I is delivered EV, `call` = the callback runs.
+      pub fn run_twice(stims: &[Sexp]) -> String {
+        let log: Log = Log::default();
+        let subject: $subj = <$subj>::default();
+        let l2 = log.clone();
+        let obs = subject.clone().$fin(move || l2.lock().unwrap().push("call".to_string()));
+        let mut handles: Vec<Option<$boxty>> = vec![];
+        for i in 0..2 {
+          let p = TProbe { id: i, log: log.clone() };
+          handles.push(Some($boxsub::new(obs.clone().actual_subscribe(p))));
+        }
+        for st in stims {
+          match st.head() {
+            "u" => {
+              if let Some(h) = handles.get_mut(st.args()[0].usize()).and_then(|h| h.take()) {
+                h.unsubscribe();
+              }
+            }
+            _ => emit(&subject, &Ev::parse(st)),
+          }
+          log.lock().unwrap().push("|".to_string());
+        }
+        for h in handles.drain(..) {
+          std::mem::forget(h);
         }
         show(&log)
       }
@@ -192,6 +243,12 @@ finalize_runner!(threads, SubjectThreads<Val, i64>, finalize_threads, BoxSubscri
 
 /// (finalize FORM hot|cold|dead|never SHAPE (stims ST...))
 pub fn run_finalize(body: &[Sexp]) -> String {
+  if body[1].atom() == "twice" {
+    return match body[0].atom() {
+      "local" => local::run_twice(body[3].args()),
+      _ => threads::run_twice(body[3].args()),
+    };
+  }
   let sh = shape(&body[2]);
   let stims = body[3].args();
   match (body[0].atom(), body[1].atom()) {
